@@ -110,3 +110,12 @@ check("C07",
       "Trusted: z3; scripted process (public Process interface); np.cov/np.std replaced by their definitions; sqrt axioms. Bounds: N <= 3/4, payoff "
       "dimension <= 2, one control. Outside: >= 2 controls, vector payoffs with controls, worker pools.",
       TECH, "DESIGN.md section 3 C07")
+
+check("C17",
+      "Bounded model checking of the real payoff / underlying / Product classes on symbolic paths, strikes, barriers, thresholds, notionals: parity, "
+      "spread/butterfly decompositions and signs, digitals sum to 1, knock-in + knock-out = vanilla, knock-in pays iff the barrier is crossed, default "
+      "time = first jump below the threshold (else inf), n-th-to-default monotone, notional linear, identity vs log representation agree (exp(log x)=x), "
+      "and history twins: a barrier payoff evaluated on path A then B equals a fresh one on B; update(LOG) then update(IDENTITY) equals a fresh underlying.",
+      "Trusted: z3; exp/log axioms. Bounds: path length <= 3/4, <= 2 assets. Outside: LookBack, Rainbow, rate payoffs, CDS (C19). Known finding: Asian.value "
+      "raises on a one-dimensional path.",
+      TECH, "DESIGN.md section 3 C17")
